@@ -186,7 +186,8 @@ def progs_of(task):
         b = BOUNDS[task[1]]
         for seq in scenarios.kind_sequences(task[2], task[3]):
             ch, prog = explore.run(scenarios.nest_scenario(seq), ())
-            yield "B/" + "-".join(seq), prog, b["nest_k"], b["nest_forms"], 0, 1
+            # depth-2 nests (225 sequences): one directive at a time
+            yield "B/" + "-".join(seq), prog, (b["nest_k"] if task[3] == 1 else 1), b["nest_forms"], 0, 1
 
 
 def sig(kind, placed, extra=""):
